@@ -58,7 +58,7 @@ class BCEngine(Engine):
     @classmethod
     def config_strategy(cls):
         return st.fixed_dictionaries({
-            "policy": st.fixed_dictionaries({"kind": st.sampled_from(["lin", "exp", "const"]), "base": st.sampled_from([0.0, 0.1, 0.5, 1.0])}),
+            "policy": st.fixed_dictionaries({"kind": st.sampled_from(["lin", "exp", "const"]), "base": st.sampled_from([0.0, 0.1, 0.5, 1.0, 1.0, 9.0, 40.0])}),
             "first_id": st.sampled_from([1, 7, 2 ** 31 - 3]),
         })
 
